@@ -1,0 +1,21 @@
+//go:build verif
+
+package fifo
+
+// VerifHook, when set by a verification harness, is called at the decision
+// points of this package. It is only compiled with the "verif" build tag.
+var VerifHook func(point string, kv ...any)
+
+func verifPoint(point string, kv ...any) {
+	if h := VerifHook; h != nil {
+		h(point, kv...)
+	}
+}
+
+// VerifMapLen reports the number of per-key entries a Map created by NewMap currently holds.
+func VerifMapLen[T comparable](m Map[T]) int {
+	a := m.(*fifoMap[T])
+	a.lock.Lock()
+	defer a.lock.Unlock()
+	return len(a.items)
+}
